@@ -240,7 +240,7 @@ def opEntry (sp : Bytes) : Int × Nat :=
 /-- what one call of Lex decides once `next` has returned the byte `ch` with `r` unread (or, in
     interpolation mode, with `r` = the whole unread source): how many FURTHER bytes of `r` it
     consumes, the new `l.token` (none = left unchanged: Lex does not assign it for single-byte
-    tokens and for tokStringStart / tokStringQuery / tokStringEnd), the token code, `*lval`, and the
+    tokens and for tokStringQuery / tokStringEnd), the token code, `*lval`, and the
     new `l.inString` (none = unchanged). -/
 structure Scan where
   n : Nat
@@ -259,7 +259,7 @@ def scanStringTok (inString : Bool) (open_ : Option UInt8) (r : Bytes) : Scan :=
   | .unterminated => { n := r.length, token := some [], ty := tokUnterminatedString }
   | .invalidEscape e len => { n := e, token := some ((r.take e).drop (e - len)), ty := tokInvalidEscapeSequence }
   | .interp k =>
-    if !inString then { n := 0, token := none, ty := tokStringStart, inString := some true }
+    if !inString then { n := 0, token := some (slice 0), ty := tokStringStart, inString := some true }  -- l.token = l.source[start:l.offset]
     else if k == 0 then { n := 2, token := none, ty := tokStringQuery, inString := some false }
     else { n := k, token := some (slice k), ty := tokString, lval := { token := unquoteStr (r.take k) } }
   | .quote k =>
@@ -322,9 +322,10 @@ def scanTok (inString : Bool) (ch : UInt8) (r : Bytes) : Scan :=
   else if ch == 34 then scanStringTok inString (some ch) r
   else if ch == 0 then { n := 0, token := some [0], ty := tokInvalid }   -- `case 0: l.token = "\x00"; return tokInvalid`
   else if ch ≥ 128 then
-    -- utf8.DecodeRuneInString(l.source[l.offset-1:]); l.offset += size - 1; l.token = string(r)
-    let (rr, size, _) := Utf8.decodeRune (ch :: r)
-    { n := size - 1, token := some (Utf8.encodeRune rr), ty := ch.toNat }
+    -- _, size := utf8.DecodeRuneInString(l.source[l.offset-1:]); l.offset += size - 1
+    -- l.token = l.source[l.offset-size : l.offset]   (the bytes themselves, also when they are not valid UTF-8)
+    let size := (Utf8.decodeRune (ch :: r)).2.1
+    { n := size - 1, token := some (tokText (size - 1)), ty := ch.toNat }
   else single
 
 /-- commit a scan: consume `w` bytes (what `next` read, including `ch`) plus `sc.n`, update
